@@ -3,9 +3,9 @@ from props import COMMON_TRUST
 
 def sess_nontrivial(tok, res):
     r = res.split("|", 1)[0]
-    if tok[0] in ("reset", "randid"):
-        return tok[0] == "randid"
-    return r not in ("disabled", "badop", "timeout")
+    if tok[0] in ("reset", "randid", "randconc"):
+        return tok[0] != "reset"
+    return r not in ("disabled", "badop", "timeout", "wedged", "blocked")
 
 
 def sess_class(r):
@@ -16,12 +16,18 @@ def sess_class(r):
         return "p"
     if r.startswith("err:"):
         return "err"
+    if r.startswith("fresh:"):
+        return "fresh:<id>"
+    if r.startswith("ids:"):
+        return "ids:<ids>" + (";own=all" if ";other=0;bgdup=0" in r else "")
+    if r.startswith("sum:"):
+        return "sum:" + ("clean" if r.endswith(";bad=;dup=") else "repeats")
     return r[:14]
 
 
 PROP = {
         "level": "proof",
-        "gens": [],
+        "gens": ["RandFacts"],
         "theorems": [
             "Frp.Sess.ninv_step", "Frp.Sess.rinv_step", "Frp.C12.reachable_inv",
             "Frp.C12.holds_is_named", "Frp.C12.one_live_proxy_per_name", "Frp.C12.named_is_live",
@@ -33,29 +39,49 @@ PROP = {
             "Frp.C12.byRun_is_newest", "Frp.C12.newest_is_designated",
             "Frp.C12.late_del_keeps_newer", "Frp.C12.del_removes_only_self", "Frp.C12.unguarded_del_witness",
             "Frp.C12.fresh_id_unused", "Frp.C12.fresh_login_replaces_nobody", "Frp.C12.fresh_add_finds_slot_empty",
-            "Frp.C12.holdsOn_sound",
+            "Frp.C12.randid_code_shape", "Frp.C12.randid_concurrent_calls_return_own_draws", "Frp.C12.randid_is_hex16",
+            "Frp.C12.randid_same_id_same_draw", "Frp.C12.randid_shared_pool_witness",
+            "Frp.C12.idsOK_sound", "Frp.C12.burstOK_sound", "Frp.C12.fresh_login_enabled",
+            "Frp.C12.ackOn_sound", "Frp.C12.model_ackSpec", "Frp.C12.holdsOn_sound",
         ],
         "engines": [
-            {"name": "sess", "quick_n": 9000, "thorough_n": 30000, "thorough_seeds": 5,
+            {"name": "sess", "quick_n": 20000, "thorough_n": 60000, "thorough_seeds": 5,
              "nontrivial": sess_nontrivial, "result_class": sess_class},
         ],
         "rule": "sess engine: a real server.Service in-process, scripted raw clients over net.Pipe on the internal "
                 "listener; every goroutine of RegisterControl / Control.worker / RegisterProxy / CloseProxy is parked "
                 "at the verifhook gates and released label by label in generated orders (hand-written hand-over "
-                "schedules + random walks over the enabled labels + blindly chosen labels); after each label the "
-                "real ctlsByRunID and pxys tables are dumped and compared with the model, and C12.holdsOn is "
-                "evaluated on the dumped tables; non-trivial = a label that was enabled; distinct = distinct "
-                "(op line, result+tables) pairs",
+                "schedules incl. chains of simultaneous re-logins released at every stage of the first session's "
+                "teardown + random walks over the enabled labels + blindly chosen labels + Start attempts of waiters whose "
+                "predecessor is not done); after each label the real ctlsByRunID and pxys tables are dumped and compared "
+                "with the model, and C12.holdsOn (incl. ackOn: the implementation's own LoginResps against its own name "
+                "table and the teardown state of every earlier session of the run id) is evaluated on them. Run ids: the id "
+                "generated for every gated fresh login is checked with C12.freshOK against all ids handed out before; "
+                "freshburst = 8..64 concurrent logins without run id on the real Service next to the gated sessions while "
+                "0..8 goroutines draw ids from util.RandID (C12.burstOK on the LoginResp ids, every id designates its own "
+                "session, no id shared with a background caller, tables as before afterwards); randconc = 4..128 goroutines x "
+                "32..2000 calls of the real util.RandID with Gosched interleaving (<= 4096 ids: C12.idsOK in the driver, "
+                "larger: malformed/repeated ids reported by the harness). Every wait is event driven and bounded (2 s, halved "
+                "by every expiry down to 125 ms); an expired wait is a DIFF and wedges that world. non-trivial = a label that "
+                "was enabled; distinct = distinct (op line, result+tables) pairs",
         "trusted": COMMON_TRUST + [
             "model Frp/Model/Sess.lean written by hand from server/service.go RegisterControl, server/control.go, "
             "server/proxy/proxy.go Manager, pkg/msg/handler.go; tied by the sess engine",
             "verifhook gates of commit 75a0848 (ctl.*, worker.*, reg.*, close.*) perturb timing only; "
             "Service.VerifSessDump / proxy.Manager.VerifDump are read-only",
             "fact check (op randid): util.RandID output = first 16 hex digits of the bytes it read from crypto/rand.Reader",
+            "translate/gen_randfacts.go (go/ast): statements, calls, buffer definition, Read call, free package-level "
+            "identifiers of RandID / RandIDWithLen -> Frp/Gen/RandFacts.lean, regenerated on every run; "
+            "Model/RandID.lean (hex formatting, calls in flight with private buffers) written by hand from those six statements",
+            "randconc with more than 4096 ids: duplicate / format detection is done by the harness (Go map), not by the driver",
         ],
         "assumptions": [
-            "the id generator is abstract in the model: a generated run id is one no session has, and no login presents "
-            "an id before the LoginResp disclosed it (unpredictability itself is not a theorem)",
+            "the id generator is abstract in the session model: a generated run id is one no session has, and no login presents "
+            "an id before the LoginResp disclosed it. What is proved about the generator: RandIDWithLen has the private-buffer "
+            "shape (regenerated facts), and for that shape every concurrent call returns the 16-hex id of its own 8-byte draw. "
+            "Assumed: crypto/rand's bytes are unpredictable and N draws of 64 random bits are pairwise different - the "
+            "collision probability is <= N^2/2^65 (N = 128000: < 5e-10), so pairwise distinctness of the ids observed in a "
+            "run is a sound oracle for 'each id is new'",
             "the dispatcher runs handlers sequentially and closes Done only after the last handler returned (pkg/msg/handler.go)",
             "resources behind a proxy (ports, routes, visitors: C09/C10), the work-connection pool (C11), plugins, "
             "MaxPortsPerClient and Control.runID=\"\" written by Replaced are outside this model; pxy.Run's outcome is an oracle",
@@ -69,7 +95,9 @@ META = {
         "technique": "Lean 4 small-step labelled transition system of the session bookkeeping (16 labels = atomic "
                      "actions between mutex sections / gates); two inductive invariant bundles proved for every label and "
                      "lifted to all label sequences; differential correspondence by gated schedules on the real Service "
-                     "with table dumps after every label",
+                     "with table dumps after every label; run-id generator: go/ast facts about RandIDWithLen + a model of "
+                     "concurrent calls with private buffers + concurrent executions of the real generator (direct and "
+                     "through bursts of fresh logins) judged by the executable freshness predicate",
         "text": "Proof (model level) + correspondence. For every interleaving of the atomic actions of any number of "
                 "sessions: at most one live proxy per name and its holder is the session stored in the global table; "
                 "a registration meeting an occupied name (at the Exist check or at the Add) is refused and changes "
@@ -81,8 +109,16 @@ META = {
                 "is never blocked by another session of its own run id; the run-id table designates an added, not "
                 "deleted session with the largest Add stamp, and conversely the newest session is designated until its "
                 "own Del; a late Del of another session never removes an entry (witness: without the c==ctl guard it "
-                "would); a login without run id finds its slot empty and replaces nobody (id freshness as assumed of "
-                "the generator).",
+                "would); a login without run id finds its slot empty and replaces nobody, given that its id is fresh - "
+                "freshOK/idsOK/burstOK state that assumption executably (sound w.r.t. well-formed + pairwise distinct; "
+                "it is exactly the enabling condition of the model's fresh login) and are evaluated on the ids of the "
+                "real Service. Generator: RandIDWithLen is, statement by statement, make-private-buffer / one "
+                "crypto/rand.Read of the whole buffer / Sprintf(%x) of that buffer with no package-level state "
+                "(regenerated facts); for that shape, under every interleaving of any number of calls in flight each "
+                "call returns the 16 lower-case hex id of the block it read itself, equal ids imply equal first 8 "
+                "bytes drawn (witness: with a shared pool buffer two overlapping calls return the same id). The "
+                "acknowledgement clause is also evaluated on the implementation's own LoginResps (ackOn; the model "
+                "satisfies it: model_ackSpec).",
         "note": "Trusted: Lean kernel; hand-written model; harness generators; gates. model_holdsOn (the model's own "
                 "tables satisfy the executable predicate) is not proved separately - the predicate is evaluated on the "
                 "implementation's tables and the tables are also compared with the model's after every label.",
